@@ -476,7 +476,7 @@ def main(tier, seed):
     if tier == "quick":
         max_nodes, nflags, nrand, rsize = 5, 2, 400, 14
     else:
-        max_nodes, nflags, nrand, rsize = 6, 2, 6000, 24
+        max_nodes, nflags, nrand, rsize = 6, 2, 40000, 24
     run.bounds = {"max_nodes_exhaustive": max_nodes, "flags": nflags,
                   "conditions": [str(c) for c in cond_choices(nflags)],
                   "random_trees": nrand, "random_tree_size": rsize}
